@@ -4,7 +4,7 @@
 cd "$(dirname "$0")/.." || exit 2
 missed=0
 for d in seeded/*/; do
-  id=$(basename $d); prop=$(python3 -c "import json;print(json.load(open('$d/meta.json'))['breaks_property'])")
+  id=$(basename $d); prop=$(python3 -c "import json;m=json.load(open('$d/meta.json'));print(m.get('caught_by') or m['breaks_property'])")
   git -C /repo checkout -- . ; git -C /repo apply $PWD/$d/patch.diff || { echo "$id APPLY-FAILED"; missed=$((missed+1)); continue; }
   out=$(timeout 1800 ./check.sh $prop quick 2>&1); rc=$?
   git -C /repo checkout -- . ; git -C /repo clean -fdq -- . 2>/dev/null
